@@ -391,3 +391,210 @@ Proof.
   - exact (xrun_exec_l n before steps ev st0 s0 ND WF SCH DEP W A).
   - exact (effects_sequential n steps before ev ND WF SCH DEP SELF lin s0 HP HR).
 Qed.
+
+(* ------------------------------------------------------------------ 4. bridge to OrchCheck.conflict_free_ip *)
+Lemma flat_map_nil_intro : forall (A B : Type) (f : A -> list B) l, (forall x, In x l -> f x = []) -> flat_map f l = [].
+Proof.
+  intros A B f. induction l as [|y l IH]; intros H; [reflexivity|]. cbn. rewrite (H y (or_introl eq_refl)). apply IH.
+  intros x Hx. apply H. right. exact Hx.
+Qed.
+
+Lemma foot_of_xsteps_act : forall steps i,
+  OrchCheck.foot_of (foot_of_xsteps steps) i = option_map (fun x => (wr (base x), rd (base x))) (aget steps i).
+Proof. induction steps as [|[k x] t IH]; intros i; [reflexivity|]. cbn. destruct (Nat.eqb k i); [reflexivity | apply IH]. Qed.
+
+Lemma style_of_xsteps_act : forall steps i x, aget steps i = Some x -> OrchCheck.style_of (styles_of_xsteps steps) i = is_inpl x.
+Proof.
+  induction steps as [|[k y] t IH]; intros i x H; [discriminate H|]. cbn in *. destruct (Nat.eqb k i); [congruence | apply IH; exact H].
+Qed.
+
+Lemma cols_of_xsteps_act : forall steps i x, aget steps i = Some x -> OrchCheck.cols_of (cols_of_xsteps steps) i = (xwrites x, xreads x).
+Proof.
+  induction steps as [|[k y] t IH]; intros i x H; [discriminate H|]. cbn in *. destruct (Nat.eqb k i); [congruence | apply IH; exact H].
+Qed.
+
+Lemma conflicting_xindependent : forall steps i j x y, aget steps i = Some x -> aget steps j = Some y ->
+  OrchCheck.conflicting (foot_of_xsteps steps) i j = negb (independent (base x) (base y)).
+Proof.
+  intros steps i j x y Ai Aj. unfold OrchCheck.conflicting. rewrite !foot_of_xsteps_act, Ai, Aj. cbn.
+  unfold independent. rewrite negb_involutive. reflexivity.
+Qed.
+
+Lemma ip_pair_inpl : forall steps i j s1 s2 o ds1 ds2, aget steps i = Some (XInpl s1 o ds1) -> aget steps j = Some (XInpl s2 o ds2) ->
+  OrchCheck.ip_pair (foot_of_xsteps steps) (styles_of_xsteps steps) i j = true.
+Proof.
+  intros steps i j s1 s2 o ds1 ds2 Ai Aj. unfold OrchCheck.ip_pair.
+  rewrite (style_of_xsteps_act steps i _ Ai), (style_of_xsteps_act steps j _ Aj), !foot_of_xsteps_act, Ai, Aj. cbn.
+  rewrite !Nat.eqb_refl. reflexivity.
+Qed.
+
+Lemma ip_pair_shape : forall steps i j x y, aget steps i = Some x -> aget steps j = Some y ->
+  OrchCheck.ip_pair (foot_of_xsteps steps) (styles_of_xsteps steps) i j = true ->
+  exists s1 s2 o ds1 ds2, x = XInpl s1 o ds1 /\ y = XInpl s2 o ds2.
+Proof.
+  intros steps i j x y Ai Aj H. unfold OrchCheck.ip_pair in H.
+  rewrite (style_of_xsteps_act steps i _ Ai), (style_of_xsteps_act steps j _ Aj), !foot_of_xsteps_act, Ai, Aj in H. cbn in H.
+  destruct x as [a|s1 o1 ds1]; [discriminate H|]. destruct y as [b|s2 o2 ds2]; [discriminate H|]. cbn in H.
+  apply andb_true_iff in H. destruct H as [H _]. apply andb_true_iff in H. destruct H as [H _]. apply Nat.eqb_eq in H. subst o2.
+  exists s1, s2, o1, ds1, ds2. auto.
+Qed.
+
+Lemma conflict_free_ip_pairs : forall p f y, OrchCheck.conflict_free_ip p f y = true ->
+  forall a b, In a p -> In b p -> Orch.sid a < Orch.sid b -> OrchCheck.conflicting f (Orch.sid a) (Orch.sid b) = true ->
+  OrchCheck.unordered p a b = true -> OrchCheck.ip_pair f y (Orch.sid a) (Orch.sid b) = true.
+Proof.
+  intros p f y H a b Ha Hb Hlt Hc Hu. unfold OrchCheck.conflict_free_ip in H.
+  destruct (OrchCheck.unordered_conflicts_ip p f y) as [|z l] eqn:E; [|discriminate H]. unfold OrchCheck.unordered_conflicts_ip in E.
+  pose proof (flat_map_nil _ _ _ _ E a Ha) as E1. cbn beta in E1. pose proof (flat_map_nil _ _ _ _ E1 b Hb) as E2. cbn beta in E2.
+  apply Nat.ltb_lt in Hlt. rewrite Hlt, Hc, Hu in E2. cbn [andb] in E2.
+  destruct (OrchCheck.ip_pair f y (Orch.sid a) (Orch.sid b)); [reflexivity | discriminate E2].
+Qed.
+
+(* a plan the classifier accepts (footprints, styles and columns of its steps) satisfies the premises of inplace_schedules_l *)
+Lemma conflict_free_ip_premises_l : forall p steps,
+  NoDup (map fst steps) ->
+  (forall i, In i (map fst steps) -> exists st, In st p /\ Orch.sid st = i) ->
+  OrchCheck.conflict_free_ip p (foot_of_xsteps steps) (styles_of_xsteps steps) = true ->
+  OrchCheck.ip_cols_ok p (foot_of_xsteps steps) (styles_of_xsteps steps) (cols_of_xsteps steps) = true ->
+  xdep_ordered (waits_before p) steps /\ (forall x, In x steps -> self_ok (snd x) = true).
+Proof.
+  intros p steps ND Hp HC HK. unfold OrchCheck.ip_cols_ok in HK. apply andb_true_iff in HK. destruct HK as [HK1 HK2].
+  rewrite forallb_forall in HK1, HK2. split.
+  - intros [i x] [j y] Hx Hy Hne Hdep. cbn [fst snd] in *.
+    destruct (Hp i (in_map fst _ _ Hx)) as [si [Hsi Ei]]. destruct (Hp j (in_map fst _ _ Hy)) as [sj [Hsj Ej]].
+    pose proof (In_aget _ steps i x ND Hx) as Ai. pose proof (In_aget _ steps j y ND Hy) as Aj.
+    destruct (Orch.mem i (OrchCheck.waits_for p sj)) eqn:M1.
+    { left. unfold waits_before. apply existsb_exists. exists sj. split; [exact Hsj|]. rewrite Ej, Nat.eqb_refl, M1. reflexivity. }
+    destruct (Orch.mem j (OrchCheck.waits_for p si)) eqn:M2.
+    { right. unfold waits_before. apply existsb_exists. exists si. split; [exact Hsi|]. rewrite Ei, Nat.eqb_refl, M2. reflexivity. }
+    exfalso. unfold xindep in Hdep. apply orb_false_iff in Hdep. destruct Hdep as [D1 D2].
+    assert (Uij : OrchCheck.unordered p si sj = true) by (unfold OrchCheck.unordered; rewrite Ei, Ej, M1, M2; reflexivity).
+    assert (Uji : OrchCheck.unordered p sj si = true) by (unfold OrchCheck.unordered; rewrite Ei, Ej, M1, M2; reflexivity).
+    assert (Sh : exists s1 s2 o ds1 ds2, x = XInpl s1 o ds1 /\ y = XInpl s2 o ds2).
+    { destruct (Nat.lt_trichotomy i j) as [L|[L|L]]; [| contradiction |].
+      - apply (ip_pair_shape steps i j x y Ai Aj). rewrite <- Ei, <- Ej.
+        apply (conflict_free_ip_pairs p _ _ HC si sj Hsi Hsj); [rewrite Ei, Ej; exact L | | exact Uij].
+        rewrite Ei, Ej, (conflicting_xindependent steps i j x y Ai Aj), D1. reflexivity.
+      - destruct (ip_pair_shape steps j i y x Aj Ai) as (s2 & s1 & o & ds2 & ds1 & -> & ->).
+        + rewrite <- Ei, <- Ej. apply (conflict_free_ip_pairs p _ _ HC sj si Hsj Hsi); [rewrite Ei, Ej; exact L | | exact Uji].
+          rewrite Ei, Ej, (conflicting_xindependent steps j i y x Aj Ai), independent_sym, D1. reflexivity.
+        + exists s1, s2, o, ds1, ds2. auto. }
+    destruct Sh as (s1 & s2 & o & ds1 & ds2 & -> & ->).
+    specialize (HK2 si Hsi). rewrite forallb_forall in HK2. specialize (HK2 sj Hsj). rewrite Ei, Ej in HK2.
+    rewrite (ip_pair_inpl steps i j s1 s2 o ds1 ds2 Ai Aj), Uij in HK2. apply Nat.eqb_neq in Hne. rewrite Hne in HK2. cbn [negb andb orb] in HK2.
+    rewrite (cols_of_xsteps_act steps i _ Ai), (cols_of_xsteps_act steps j _ Aj) in HK2. cbn [fst snd xwrites xreads base] in HK2.
+    cbn [ip_ok] in D2. rewrite Nat.eqb_refl in D2. cbn [andb] in D2. unfold cols_compat, disjointb in D2.
+    unfold OrchCheck.disj in HK2. rewrite D2 in HK2. discriminate HK2.
+  - intros [i x] Hx. cbn [snd]. destruct x as [a|sty o ds]; [reflexivity|].
+    destruct (Hp i (in_map fst _ _ Hx)) as [si [Hsi Ei]]. pose proof (In_aget _ steps i _ ND Hx) as Ai.
+    specialize (HK1 si Hsi). rewrite Ei, (style_of_xsteps_act steps i _ Ai), (cols_of_xsteps_act steps i _ Ai) in HK1.
+    cbn [is_inpl negb orb fst snd xwrites xreads base] in HK1. unfold self_ok, names. unfold names in HK1. rewrite map_length in HK1.
+    assert (Q : forall l, OrchCheck.nodupn l = nodupb l) by (induction l as [|z l IHl]; [reflexivity | cbn; rewrite IHl; reflexivity]).
+    rewrite Q in HK1. exact HK1.
+Qed.
+
+(* the weakened classifier accepts everything the old one accepts *)
+Lemma conflict_free_ip_weaker : forall p f y, OrchCheck.conflict_free p f = true -> OrchCheck.conflict_free_ip p f y = true.
+Proof.
+  intros p f y H. unfold OrchCheck.conflict_free in H. destruct (OrchCheck.unordered_conflicts p f) as [|z l] eqn:E; [|discriminate H].
+  unfold OrchCheck.conflict_free_ip.
+  assert (X : OrchCheck.unordered_conflicts_ip p f y = []).
+  { unfold OrchCheck.unordered_conflicts_ip, OrchCheck.unordered_conflicts in *.
+    apply flat_map_nil_intro. intros a Ha. apply flat_map_nil_intro. intros b Hb.
+    pose proof (flat_map_nil _ _ _ _ E a Ha) as E1. cbn beta in E1. pose proof (flat_map_nil _ _ _ _ E1 b Hb) as E2. cbn beta in E2.
+    unfold OrchCheck.unordered.
+    destruct (Nat.ltb (Orch.sid a) (Orch.sid b)), (negb (Orch.mem (Orch.sid a) (OrchCheck.waits_for p b))),
+      (negb (Orch.mem (Orch.sid b) (OrchCheck.waits_for p a))), (OrchCheck.conflicting f (Orch.sid a) (Orch.sid b));
+      cbn in *; try reflexivity; discriminate E2. }
+  rewrite X. reflexivity.
+Qed.
+
+(* ------------------------------------------------------------------ 5. executable premises are sound *)
+Lemma memxev_In : forall e l, memxev e l = true <-> In e l.
+Proof.
+  intros e l. unfold memxev. rewrite existsb_exists. split.
+  - intros [y [Hy E]]. apply xevent_eqb_eq in E. subst. exact Hy.
+  - intros H. exists e. split; [exact H | apply xevent_eqb_refl].
+Qed.
+
+Lemma nodup_xev_NoDup : forall l, nodup_xev l = true -> NoDup l.
+Proof.
+  induction l as [|x l IH]; intros H; [constructor|]. cbn in H. apply andb_true_iff in H. destruct H as [H1 H2].
+  constructor; [|apply IH; exact H2]. intros X. apply memxev_In in X. rewrite X in H1. discriminate H1.
+Qed.
+
+Lemma expectedb_sound : forall steps e, expectedb steps e = true -> expected steps e.
+Proof.
+  intros steps [i|i|i k|i] H; cbn in *.
+  - apply mem_In. exact H.
+  - destruct (aget steps i) as [[a|sty o ds]|]; try discriminate H. exists a. reflexivity.
+  - destruct (aget steps i) as [[a|sty o ds]|]; try discriminate H. exists sty, o, ds. split; [reflexivity|]. apply Nat.ltb_lt. exact H.
+  - apply mem_In. exact H.
+Qed.
+
+Lemma expected_events_of : forall steps e, expected steps e -> In e (flat_map events_of steps).
+Proof.
+  intros steps e H. apply in_flat_map. destruct e as [i|i|i k|i]; cbn in H.
+  - apply in_map_iff in H. destruct H as [[j x] [E H]]. cbn in E. subst j. exists (i, x). split; [exact H|]. left. reflexivity.
+  - destruct H as [a A]. exists (i, XRepl a). split; [apply aget_In; exact A|]. right. right. left. reflexivity.
+  - destruct H as (sty & o & ds & A & L). exists (i, XInpl sty o ds). split; [apply aget_In; exact A|]. right. right. cbn [fst snd].
+    apply in_map. apply in_seq. lia.
+  - apply in_map_iff in H. destruct H as [[j x] [E H]]. cbn in E. subst j. exists (i, x). split; [exact H|]. right. left. reflexivity.
+Qed.
+
+Lemma wf_xb_sound : forall steps ev, wf_xb steps ev = true -> NoDup (map fst steps) /\ wf_x steps ev.
+Proof.
+  intros steps ev H. unfold wf_xb in H. rewrite !andb_true_iff in H. destruct H as ((((H0 & H1) & H2) & H3) & H4).
+  rewrite forallb_forall in H2, H3, H4. split; [apply nodupb_NoDup; exact H0|]. split; [apply nodup_xev_NoDup; exact H1|]. split.
+  - intros e. split.
+    + intros He. apply expectedb_sound. exact (H2 e He).
+    + intros He. apply memxev_In. apply H3. apply expected_events_of. exact He.
+  - intros e He. specialize (H4 e He). destruct e as [i|i|i k|i]; cbn in H4; [exact I | | |].
+    + apply andb_true_iff in H4. destruct H4 as [A B]. apply Nat.ltb_lt in A, B. auto.
+    + apply andb_true_iff in H4. destruct H4 as [A B]. apply Nat.ltb_lt in A, B. auto.
+    + apply Nat.ltb_lt in H4. exact H4.
+Qed.
+
+Lemma scheduled_xb_sound : forall before steps ev, scheduled_xb before steps ev = true -> scheduled_x before steps ev.
+Proof.
+  intros before steps ev H i j B Hi Hj. unfold scheduled_xb in H. rewrite forallb_forall in H. specialize (H i Hi).
+  rewrite forallb_forall in H. specialize (H j Hj). rewrite B in H. cbn in H. apply Nat.ltb_lt. exact H.
+Qed.
+
+Lemma xdep_orderedb_sound : forall before steps, xdep_orderedb before steps = true -> xdep_ordered before steps.
+Proof.
+  intros before steps H x y Hx Hy Hne Hdep. unfold xdep_orderedb in H. rewrite forallb_forall in H.
+  specialize (H x Hx). rewrite forallb_forall in H. specialize (H y Hy).
+  rewrite Hdep in H. apply Nat.eqb_neq in Hne. rewrite Hne in H. cbn in H. apply orb_true_iff in H. exact H.
+Qed.
+
+Lemma respects_xb_sound : forall before l, respects_xb before l = true -> respects_x before l.
+Proof.
+  intros before. induction l as [|x l IH]; intros H; [exact I|]. cbn in H. apply andb_true_iff in H. destruct H as [H1 H2].
+  split; [|apply IH; exact H2]. intros y Hy. rewrite forallb_forall in H1. apply negb_true_iff. exact (H1 y Hy).
+Qed.
+
+Lemma all_self_ok_sound : forall steps, all_self_ok steps = true -> forall x, In x steps -> self_ok (snd x) = true.
+Proof. intros steps H x Hx. unfold all_self_ok in H. rewrite forallb_forall in H. exact (H x Hx). Qed.
+
+(* ------------------------------------------------------------------ 6. conflict_free_ip => confluent *)
+Lemma conflict_free_ip_confluent_l : forall n p steps s ev lin,
+  NoDup (map fst steps) ->
+  (forall i, In i (map fst steps) -> exists st, In st p /\ Orch.sid st = i) ->
+  OrchCheck.conflict_free_ip p (foot_of_xsteps steps) (styles_of_xsteps steps) = true ->
+  OrchCheck.ip_cols_ok p (foot_of_xsteps steps) (styles_of_xsteps steps) (cols_of_xsteps steps) = true ->
+  wf_x steps ev -> scheduled_x (waits_before p) steps ev ->
+  Permutation steps lin -> respects_x (waits_before p) lin ->
+  xoutcome_eqv (xrun n steps (inject s) [] ev) (exec n s (map base (map snd lin))).
+Proof.
+  intros n p steps s ev lin ND Hp HC HK WF SCH HP HR.
+  destruct (conflict_free_ip_premises_l p steps ND Hp HC HK) as [DEP SELF].
+  apply (inplace_schedules_l n (waits_before p) steps ev lin (inject s) s ND SELF DEP WF SCH HP HR (hst_wf_inject s) (obs_inject s)).
+Qed.
+
+Lemma xoutcome_eqv_has_col : forall xo o obj f, xoutcome_eqv xo o -> hhas_col xo obj f = has_col o obj f.
+Proof.
+  intros [st|e] [s|f0|o0] obj f H; cbn in H; try contradiction; try reflexivity. unfold hhas_col, has_col.
+  specialize (H obj). destruct (obs st obj) as [t1|], (get_obj s obj) as [t2|]; cbn in H; try contradiction; [|reflexivity].
+  rewrite (H f). reflexivity.
+Qed.
